@@ -36,6 +36,11 @@ CLAIMS = {
   text="Coq: C09_span (the value M returns is S's value, whose @position nodes carry (offset at rule entry after the caller's skip, offset at exit); entry point starts at 0), C09_nest (in S every recorded range lies inside the span of the enclosing match with start<=end, successive field matches occupy successive non-overlapping stretches), C09_own, C09_string_slice. Oracle on implementation trees: ranges on char boundaries inside the input, nested in the enclosing range, Vec elements ordered, root at 0, @string @position string == slice, tree == S tree.",
   note=TB + "Positions of values produced by user extern functions are assumed absent (hypothesis of C09_nest). Memoized/left-recursive grammars are covered by the oracle only.",
   technique="Coq proof over the specification (span nesting/ordering) + simulation + differential correspondence"),
+ "C12": dict(
+  category="proof",
+  text="Coq: C12_escapes / C12_simple_escapes (for every Unicode scalar value and every applicable escape form \\xXX, \\uXXXX, \\U00XXXXXX, \\u{X..} with 1-6 digits, any hex case: decoding the spelled item yields the character; invalid code points yield an error), C12_directives (flags independent of directive order, @checks collected in order), C12_frontend (the AST of grammar.ebnf, regenerated on every run through the shipped front end, has no memo/leftrec rule, hence by the simulation the model of its generated parser reads every text exactly as the PEG specification reads it under grammar.ebnf). Partial: the printer/parser round trip for all layouts (C12_layout) is not a theorem; it is covered by the oracles: front-end AST == the AST a text was printed from (modulo redundant groups and escape spelling), one AST under several layouts reads identically, front end == extracted S under grammar.ebnf, front end == extracted M on the grammar.ebnf AST.",
+  note=TB + "The doc/syntax.md reading is formalised by grammar.ebnf itself plus the generator's printer.",
+  technique="Coq proofs of escape decoding and directive collection + the front end as an instance of the simulation + layout/AST differential oracles"),
  "C13": dict(
   category="proof",
   text="Coq: C13_decl (get_fields of `>R` = get_fields of the group of R's body, any fuel/tables), C13_run (the generated code for the include IS the generated code for the group of the body: equal results, trees, positions, farthest error, trace, cache and user state for any sub-evaluators, i.e. also with memo/leftrec and stateful hooks), C13_spec, C13_missing. Whole-grammar substitution (C13_subst) is not yet a theorem: partial. Oracle (metamorphic, no model): each generated grammar with includes vs its textual inlining — identical public type declarations, identical results on shared inputs.",
@@ -46,6 +51,16 @@ CLAIMS = {
   text="Coq: C14_checks_spec (a rule with checks matches iff body matches and every check is true on the produced value, first failure wins), C14_conform (M = S with checks/externs as pure oracles: verdict, value passed to checks, consumed bytes, error), C14_run_checks (for arbitrary stateful hooks: directive order, stop at first false, ordinary Err at the body's end state), C14_extern (extern receives exactly the remaining input and the user state; Ok((v,n)) yields v and advances n through the checked advance). Correspondence: hook invocation logs and results equal the model's, with and without a user context.",
   note=TB + "User functions are oracles; the harness ships a fixed library with Gallina twins (Hooks.v).",
   technique="Coq simulation proof + wrapper-level lemmas + differential correspondence of hook-call logs"),
+ "C17": dict(
+  category="translation_validation",
+  text="Re-bootstrapping on every run: stage 2 (the tree's own generator on grammar.ebnf), passed through rustfmt as bootstrap.sh does, is byte-identical to the shipped codegen/src/grammar/generated.rs after the header (identical programs agree on every text, valid or not - no sampling involved); the header CRC equals the CRC of the current grammar.ebnf; stage 3 (a generator rebuilt around stage 2 in a scratch copy) reproduces stage 2. If the texts differ, both front ends are compared on grammar texts. Coq side: C17_instance / C17_fields_ok - the grammar of grammars (AST regenerated through the shipped front end) is an instance of the general theorems.",
+  note=TB + "rustfmt (1.9.0) is trusted to be deterministic and semantics-preserving; cargo/rustc build the stage-3 generator.",
+  technique="Translation validation by re-bootstrapping (stage 2 = shipped, stage 3 = stage 2) + Coq instance lemma"),
+ "C18": dict(
+  category="proof",
+  text="Coq (BuildScript.v: Compile::run over an abstract file system with header/compile/rustfmt as parameters): C18_failed_run / C18_unreadable / C18_invalid (a failing run returns Err and leaves destination and write count untouched), C18_idempotent (an up-to-date destination is not rewritten), C18_ok, C18_fresh_partial (freshness provided the header+prefix test cannot be passed by a destination produced from another (grammar, prefix)), C18_fresh_refuted (for EVERY header/compile function: shrinking the prefix to a proper prefix of the old one leaves a stale destination) - the unconditional property is false, recorded as known findings (prefix shrink, CRC-32 collision). Correspondence: random histories executed with the real Compile in temp directories (file / explicit destination / directory mode) vs the extracted model instantiated with the real header and generated code; oracle: the freshness property itself.",
+  note=TB + "The file system is a map from paths to contents; rustfmt (format()) is not exercised in the differential runs; mtime is observed through content change only.",
+  technique="Coq state-machine proof + refutation theorem + differential histories against the real Compile"),
  "C19": dict(
   category="proof",
   text="Coq theorems C19_balanced / C19_every_call (instance of Inv.m_invariant; every grammar incl. memoized and left-recursive rules, failing checks, externs, any hooks, any decision-point configuration): the tracer callback sequence of a returning parse is balanced (each print_trace_start followed by exactly one matching print_trace_result; running depth never below zero, zero at the end), a non-returning run produced a prefix of one. Correspondence: the recording tracer's sequence equals the model's log exactly on every stream case. Oracle: balance of the implementation's own sequence; NoopTracer vs recording tracer vs the real IndentedTracer (debug build, overflow checks) return the same result. Partial: 'the tracer log is write-only' (C19_transparent) is not yet a theorem about the model; it is covered by the oracle.",
